@@ -122,7 +122,7 @@ def _local_fn(facts, name):
     return None
 
 
-COMBINATORS = ('bool::then', 'bool::then_some', 'Option::unwrap_or_else', 'Option::unwrap_or', 'Result::unwrap_or', 'Result::unwrap_or_else')
+COMBINATORS = ('Option::is_some_and', 'Option::is_none_or', 'bool::then', 'bool::then_some', 'Option::unwrap_or_else', 'Option::unwrap_or', 'Result::unwrap_or', 'Result::unwrap_or_else')
 _inl_cache = {}
 
 
@@ -174,6 +174,11 @@ def _exp(facts, d, depth, keep, memo):
                 out = ('ite', args[0], ('agg', 'option::Option::Some', ('0', _exp(facts, v, depth + 1, keep, memo) if depth < MAX_DEPTH else v)), ('agg', 'option::Option::None'))
         elif name == 'bool::then_some' and len(args) == 2:
             out = ('ite', args[0], ('agg', 'option::Option::Some', ('0', args[1])), ('agg', 'option::Option::None'))
+        elif name in ('Option::is_some_and', 'Option::is_none_or') and len(args) == 2 and isinstance(args[1], tuple) and args[1] and args[1][0] == 'closure':
+            v = closure_apply(facts, args[1], (('unwrap', args[0]),))
+            if v is not None:
+                # as a VALUE: false (resp. true) when absent, the closure's answer on the contained value otherwise
+                out = ('phi', ('const', name == 'Option::is_none_or'), _exp(facts, v, depth + 1, keep, memo) if depth < MAX_DEPTH else v)
         elif name in ('Option::unwrap_or', 'Result::unwrap_or') and len(args) == 2 and not any(kk in name for kk in keep):
             out = ('phi', ('unwrap', args[0]), args[1])           # the contained value, or the default
         elif name in ('Option::unwrap_or_else', 'Result::unwrap_or_else') and len(args) == 2 and isinstance(args[1], tuple) and args[1] and args[1][0] == 'closure' \
